@@ -176,6 +176,40 @@ def run_bounded(chk):
             continue
         n_cases += 1
         n_eval += stale.read_mutate_read(obj, probes_inside, f"history:{label}", fails)
+    # batch sizes up to the 2000 the property names (and past powers of two / 1024-blocks): the batch answer must be, element by
+    # element and in input order, what small batches and single-point calls answer
+    rng = np.random.RandomState(5)
+    def shape_of(nm):
+        return cox.shapes.ConvexPolyhedron(np.asarray(corpus.named_convex()[nm], float) + np.array([2.0, 1.0, -3.0]))
+    big = {"ConvexPolyhedron": shape_of("box"),
+           "Polyhedron": cox.shapes.Polyhedron(np.asarray(verts, float), [list(f) for f in faces]),
+           "Sphere": cox.shapes.Sphere(1.7, (1.0, -2.0, 0.5)), "Ellipsoid": cox.shapes.Ellipsoid(2.0, 1.0, 0.6, (1.0, -2.0, 0.5)),
+           "ConvexSpheropolyhedron": cox.shapes.ConvexSpheropolyhedron(np.asarray(shape_of("box").vertices), 0.3)}
+    sizes = (1, 2, 1023, 1024, 1025, 1500, 2000, 2049) if chk.bounded_tier == "quick" else (1, 2, 3, 255, 256, 257, 1023, 1024, 1025, 1500, 2000, 2047, 2048, 2049, 4099)
+    for cname, shp in big.items():
+        V = np.asarray(shp.vertices if hasattr(shp, "vertices") else np.array([np.asarray(shp.centroid) - 2.5, np.asarray(shp.centroid) + 2.5]), float)
+        lo, hi = V.min(axis=0) - 0.4, V.max(axis=0) + 0.4
+        for nb in sizes:
+            if cname == "Polyhedron" and nb > 1100 and chk.bounded_tier == "quick" and nb not in (1500, 2049):
+                continue
+            pts = lo + rng.rand(nb, 3) * (hi - lo)
+            n_cases += 1
+            try:
+                got = np.asarray(shp.is_inside(pts if nb > 1 else pts))
+                ref = np.concatenate([np.asarray(shp.is_inside(pts[i:i + 37])).reshape(-1) for i in range(0, nb, 37)])
+                ones = [bool(np.asarray(shp.is_inside(pts[i])).reshape(-1)[0]) for i in sorted({0, nb - 1, nb // 2, min(nb - 1, 1024), max(0, nb - 13)})]
+            except Exception as e:  # noqa: BLE001
+                fails.append((f"batch:{cname}/n={nb}", {"exception": f"{type(e).__name__}: {e}"[:200]}))
+                continue
+            n_eval += nb
+            idx = sorted({0, nb - 1, nb // 2, min(nb - 1, 1024), max(0, nb - 13)})
+            if got.shape != (nb,):
+                fails.append((f"batch:{cname}/n={nb}", {"result_shape": list(got.shape), "points": nb}))
+            elif np.any(got != ref) or any(bool(got[i]) != o for i, o in zip(idx, ones)):
+                badi = int(np.nonzero(got != ref)[0][0]) if np.any(got != ref) else next(i for i, o in zip(idx, ones) if bool(got[i]) != o)
+                fails.append((f"batch:{cname}/n={nb}", {"class": cname, "batch_size": nb, "index": badi, "point": pts[badi].tolist(),
+                                                        "in_the_batch": bool(got[badi]), "in_a_small_batch": bool(ref[badi]),
+                                                        "differing_entries": int(np.sum(got != ref))}))
     for name, info in fails[:5]:
         n_bad += 1
         chk.record(f"bounded:is_inside_3d[{name}]", fkey, "bounded-fail", "exact-membership", detail=str(info)[:500], model={},
@@ -188,7 +222,7 @@ def run_bounded(chk):
         "bound": "8 voxel solids x 3 (quick) / 4 placements x all points of a half-integer grid of the bounding box +-1 that are "
                  "not on the boundary (these share coordinates with vertices); 6 (quick) / 20 convex cores x radii {0, 5%, 50% of size} "
                  "x 300 seeded points, margin 1e-6 size; 3 objects read, then moved / resized / reoriented through their public mutators "
-                 "and re-read against a fresh construction",
+                 "and re-read against a fresh construction; batches of 1 .. 2049 (quick) / 4099 points on the five classes against batches of 37 and single-point calls",
         "evaluations": n_eval, "distinct_nontrivial": n_cases,
         "rule": "distinct = (solid, placement) or (core, radius); every case has interior and exterior points",
         "samples": [{"solid": "U7", "example_point": [1.0, 0.5, 0.5]}], "failures": len(fails), "exhaustive": False})
